@@ -81,25 +81,53 @@ def specLoss (c : Case) (act : List Nat) (a b : Nat) : Nat :=
 def specCap (c : Case) (act : List Nat) : Nat :=
   c.cap * SC * prodOver act (capNum c.faults) / prodOver act (capDen c.faults)
 
+/-! ### which plans the schedule accepts -/
+
+/-- `generate_events` resolves the names a fault mentions when the `Simulation` is built: entities
+    (`ctx.entities[name]`, a `KeyError` otherwise) and links (`ValueError: No link found`) -/
+def Kind.resolves (c : Case) : Kind → Bool
+  | .crash e | .pause e => e ≤ c.n
+  | .part _ A B => (A ++ B).all (· ≤ c.n)
+  | .lat a b _ | .loss a b _ => c.links.any fun l => l.a == a && l.b == b
+  | .cap .. => true
+
+/-- every scheduled fault of the plan names existing targets (manual calls take entity objects) -/
+def Case.resolves (c : Case) : Bool := c.faults.all fun ft => ft.manual || ft.kind.resolves c
+
 /-! ### which windows are active -/
 
-def actStep (act : List Nat) : Pop → List Nat
+/-- window `f` is a partition (scheduled `NetworkPartition` or a manual `Network.partition()`) -/
+def isPartF (fs : List Fault) (f : Nat) : Bool :=
+  match kindOf fs f with
+  | some (.part ..) => true
+  | _ => false
+
+/-- a window opens at its activation (for a manual partition: the `Network.partition()` call) and
+    ends at its deactivation (`Partition.heal()`); `Network.heal_partition()` ("remove all network
+    partitions") ends every partition window that is open at that moment -/
+def actStep (fs : List Fault) (act : List Nat) : Pop → List Nat
   | .fault _ f true => f :: act
   | .fault _ f false => act.erase f
+  | .healall _ => act.filter fun f => !isPartF fs f
   | _ => act
 
 /-- the windows that are active after the processed events `tr` (most recently activated first) -/
-def activeAfter (tr : List Pop) : List Nat := tr.foldl actStep []
+def activeAfter (fs : List Fault) (tr : List Pop) : List Nat := tr.foldl (actStep fs) []
 
-/-- every fault event is processed at most once, an activation before its deactivation
-    (what the engine's exactly-once, time-ordered delivery gives for windows with `s ≤ r`) -/
-def wfFrom (ever act : List Nat) : List Pop → Bool
+/-- every activation is processed at most once and before the deactivation of its window; a
+    deactivation of a window that is not active can only be that of a partition that was opened
+    before (a repeated `Partition.heal()`, or the scheduled end of a window that a
+    `Network.heal_partition()` has already ended).  This is what the engine's exactly-once,
+    time-ordered delivery gives for windows with `s ≤ r`. -/
+def wfFrom (fs : List Fault) (ever act : List Nat) : List Pop → Bool
   | [] => true
-  | .fault _ f true :: rest => !ever.contains f && wfFrom (f :: ever) (f :: act) rest
-  | .fault _ f false :: rest => act.contains f && wfFrom ever (act.erase f) rest
-  | _ :: rest => wfFrom ever act rest
+  | .fault _ f true :: rest => !ever.contains f && wfFrom fs (f :: ever) (f :: act) rest
+  | .fault _ f false :: rest =>
+    (act.contains f || (isPartF fs f && ever.contains f)) && wfFrom fs ever (act.erase f) rest
+  | .healall _ :: rest => wfFrom fs ever (act.filter fun f => !isPartF fs f) rest
+  | _ :: rest => wfFrom fs ever act rest
 
-def WF (tr : List Pop) : Prop := wfFrom [] [] tr = true
+def WF (fs : List Fault) (tr : List Pop) : Prop := wfFrom fs [] [] tr = true
 
 /-! ### the judge: the property evaluated on an observed transcript -/
 
@@ -126,6 +154,8 @@ structure JSt where
   act : List Nat := []
   ever : List Nat := []
   done : List Nat := []                    -- deactivated
+  canc : List Nat := []                    -- handles cancelled during the run
+  healed : Bool := false                   -- a `Network.heal_partition()` call was processed
   grants : List (Nat × Nat) := []          -- (job, amount) granted and not released, oldest first
   emis : List (Nat × Nat) := []
   sent : List (Nat × Nat × Nat) := []      -- probe, send time, specified latency
@@ -134,15 +164,17 @@ def heldOf (g : List (Nat × Nat)) : Nat := (g.map (·.2)).sum
 
 def zip3 (ls : List Link) (xs : List α) : List (Link × α) := ls.zip xs
 
-def judgeSettings (c : Case) (act : List Nat) (held : Nat) (s : Settings) : Option String :=
+def judgeSettings (c : Case) (act : List Nat) (held : Nat) (s : Settings) (healed : Bool := false) :
+    Option String :=
   let pre := if act.isEmpty then "restore/" else ""
+  let post := if healed then "/after-heal-all" else ""
   if s.P.length != c.links.length || s.L.length != c.links.length || s.X.length != c.links.length then
     some "settings/malformed"
   else
   match (c.links.zip s.P).find? (fun (l, p) => p != specBlocked c.faults act l.a l.b) with
   | some (_, p) =>
     some (pre ++ (if p then "partition/blocked-without-active-window"
-                  else "partition/unblocked-while-window-active"))
+                  else "partition/unblocked-while-window-active") ++ post)
   | none =>
   match (c.links.zip s.L).find? (fun (l, x) => x != specLat c act l.a l.b) with
   | some _ => some (pre ++ "latency/not-base-plus-active-windows")
@@ -181,23 +213,42 @@ def judgeStep (c : Case) (st : JSt) (o : Obs) : JSt × Option String :=
   let fs := c.faults
   let chk (st' : JSt) : JSt × Option String :=
     match o.settings with
-    | some s => (st', judgeSettings c st'.act (heldOf st'.grants) s)
+    | some s => (st', judgeSettings c st'.act (heldOf st'.grants) s st'.healed)
     | none => (st', none)
   match o.pop with
   | .fault t f a =>
     match fs[f]? with
     | none => (st, some "fault/unknown-fault-event")
     | some ft =>
-      if ft.cancelled then (st, some "fault/cancelled-fault-fired")
+      if ft.cancelled then
+        (st, some (if c.preCanc.contains f then "fault/cancelled-fault-fired/before-simulation-built"
+                   else "fault/cancelled-fault-fired"))
+      else if st.canc.contains f then (st, some "fault/cancelled-fault-fired")
       else if a then
         if st.ever.contains f then (st, some "fault/event-fired-twice")
         else if t != ft.s then (st, some "fault/activation-not-at-start-time")
         else chk { st with act := f :: st.act, ever := f :: st.ever }
       else
-        if !st.act.contains f then (st, some "fault/deactivation-without-activation")
-        else if some t != ft.r then (st, some "fault/deactivation-not-at-end-time")
+        if !ft.manual && st.done.contains f then (st, some "fault/event-fired-twice")
+        else if !ft.manual && some t != ft.r then (st, some "fault/deactivation-not-at-end-time")
+        else if !st.act.contains f then
+          -- a partition handle that holds nothing any more (healed before, or swept by
+          -- `heal_partition()`): the call has to leave everything as it is
+          if isPartF fs f && st.ever.contains f then chk { st with done := f :: st.done }
+          else (st, some "fault/deactivation-without-activation")
         else chk { st with act := st.act.erase f, done := f :: st.done }
-  | .cancel _ _ => (st, none)
+  | .cancel t f =>
+    -- `FaultHandle.cancel()`: the events of the fault that are still pending never fire (judged at
+    -- the `.fault` case above); those due before the call must have fired; nothing else changes
+    match fs[f]? with
+    | none => (st, some "fault/unknown-fault-event")
+    | some ft =>
+      if ft.cancelled || st.canc.contains f then chk st
+      else if ft.s < t && !st.ever.contains f then (st, some "fault/event-missing")
+      else if (match ft.r with | some r => decide (r < t) | none => false) && !st.done.contains f then
+        (st, some "fault/event-missing")
+      else chk { st with canc := f :: st.canc }
+  | .healall _ => chk { st with act := st.act.filter (fun f => !isPartF fs f), healed := true }
   | .job _ j cont =>
     let e := (c.job j).ent
     let down := 0 < specDown fs st.act e
@@ -256,12 +307,14 @@ def judgeEnd (c : Case) (st : JSt) (final : Option Settings) : Option String :=
   let idx := List.range c.faults.length
   match idx.find? (fun f =>
       match c.faults[f]? with
-      | some ft => !ft.cancelled && (!st.ever.contains f || (ft.r.isSome && !st.done.contains f))
+      | some ft =>
+        !ft.cancelled && !st.canc.contains f &&
+          (!st.ever.contains f || (ft.r.isSome && !st.done.contains f))
       | none => false) with
   | some _ => some "fault/event-missing"
   | none =>
     match final with
-    | some s => judgeSettings c st.act (heldOf st.grants) s
+    | some s => judgeSettings c st.act (heldOf st.grants) s st.healed
     | none => none
 
 def judgeRun (c : Case) : JSt → Nat → List Obs → Option Settings → Option String
